@@ -1,6 +1,9 @@
 package srvworld
 
 import (
+	"crypto/hmac"
+	"crypto/sha1" //nolint:gosec
+	"encoding/base64"
 	"encoding/binary"
 	"fmt"
 	"net"
@@ -29,6 +32,25 @@ type TConfig struct {
 	// (what a TLS listener or a metering wrapper yields): no ReadFrom / WriteTo short cuts
 	PlainConns bool `json:"plain_conns,omitempty"`
 	GenFailAt  int  `json:"gen_fail_at,omitempty"` // >0: the n-th call of the relay address generator fails
+	// LibAuth: the operator uses the library's own LongTermTURNRESTAuthHandler (time-windowed
+	// usernames "<expiry>:<user>", password = base64(HMAC-SHA1(secret, username)))
+	LibAuth bool `json:"lib_auth,omitempty"`
+}
+
+// LibAuthSecret is the shared secret of worlds configured with LibAuth.
+const LibAuthSecret = "sim-shared-secret"
+
+// credFor is what a client presents as user u: the static table's name and password, or the
+// time-windowed pair of the library's REST scheme (expiry in the year 2100).
+func (c *TConfig) credFor(u struct{ Name, Pass string }) (string, string) {
+	if !c.LibAuth {
+		return u.Name, u.Pass
+	}
+	username := "4102444800:" + u.Name
+	mac := hmac.New(sha1.New, []byte(LibAuthSecret))
+	mac.Write([]byte(username))
+
+	return username, base64.StdEncoding.EncodeToString(mac.Sum(nil))
 }
 
 // plainListener wraps the accepted connections so that only the net.Conn methods are visible.
@@ -225,20 +247,24 @@ func newTWorld(cfg TConfig) (*TWorld, error) {
 	if cfg.PlainConns {
 		srvListener = plainListener{l}
 	}
+	authHandler := func(ra *turn.RequestAttributes) (string, []byte, bool) {
+		for _, u := range Users {
+			if u.Name == ra.Username {
+				return u.Name, ref.LongTermKey(u.Name, ra.Realm, u.Pass), true
+			}
+		}
+
+		return "", nil, false
+	}
+	if cfg.LibAuth {
+		authHandler = turn.LongTermTURNRESTAuthHandler(LibAuthSecret, w.log.NewLogger("auth"))
+	}
 	srv, err := turn.NewServer(turn.ServerConfig{
 		Realm:              Realm,
 		LoggerFactory:      w.log,
 		PermissionTimeout:  time.Duration(cfg.PermTimeoutS) * time.Second,
 		AllocationLifetime: time.Duration(cfg.AllocLifetimeS) * time.Second,
-		AuthHandler: func(ra *turn.RequestAttributes) (string, []byte, bool) {
-			for _, u := range Users {
-				if u.Name == ra.Username {
-					return u.Name, ref.LongTermKey(u.Name, ra.Realm, u.Pass), true
-				}
-			}
-
-			return "", nil, false
-		},
+		AuthHandler:        authHandler,
 		ListenerConfigs: []turn.ListenerConfig{{
 			Listener:              srvListener,
 			RelayAddressGenerator: w.gen,
@@ -357,13 +383,13 @@ func drainFrames(conn *sim.Conn, buf *[]byte) (msgs []*ref.Msg, eof bool, bad bo
 func (x *TExec) settle() { synctest.Wait() }
 
 func (x *TExec) sign(c *tClient, ui int, m *ref.Msg) []byte {
-	u := Users[ui%len(Users)]
+	name, pass := x.w.cfg.credFor(Users[ui%len(Users)])
 	mm := &ref.Msg{Method: m.Method, Class: m.Class, TxID: m.TxID, Attrs: append([]ref.Attr{}, m.Attrs...)}
-	mm.Add(ref.AttrUsername, []byte(u.Name))
+	mm.Add(ref.AttrUsername, []byte(name))
 	mm.Add(ref.AttrRealm, []byte(Realm))
 	mm.Add(ref.AttrNonce, []byte(c.nonce))
 
-	return ref.AddIntegrity(mm.Encode(), ref.LongTermKey(u.Name, Realm, u.Pass))
+	return ref.AddIntegrity(mm.Encode(), ref.LongTermKey(name, Realm, pass))
 }
 
 // request sends one authenticated request on conn and returns the response with the same id
